@@ -31,6 +31,11 @@ def check_sf(sc, c):
         na, nb_ = np.isnan(got), np.isnan(exp)
         if (na != nb_).any() or not np.allclose(got[~na], exp[~nb_], rtol=1e-12, atol=1e-12):
             return [("structure_function:lag-value", dict(got=got.tolist(), expected=exp.tolist()))]
+    # integer-typed phase (quantised data) has the same structure function
+    gi = np.asarray(sc.calculate_structure_function(np.array(c["ph"], dtype=np.int64), nbOfPoint=nb, step=c["step"]), float)
+    ok_ = ~np.isnan(exp)
+    if gi.shape != exp.shape or not np.allclose(gi[ok_], exp[ok_], rtol=1e-12, atol=1e-12):
+        return [("structure_function:integer-input", dict(got=gi.tolist(), expected=exp.tolist()))]
     g3 = np.asarray(sc.calculate_structure_function(3 * ph, nbOfPoint=nb, step=c["step"]), float)
     ok = ~np.isnan(exp)
     if not np.allclose(g3[ok], 9 * exp[ok], rtol=1e-12, atol=1e-12):
@@ -81,6 +86,34 @@ def check_tps(tp, c):
     return bad
 
 
+def check_general_n(tp, rng):
+    """frame counts outside the model's exact ones (2, 4, 8): the definition evaluated as a literal DFT in float64 (auxiliary)"""
+    bad = []
+    n_cases = 0
+    for n in (3, 5, 6, 7, 9, 12, 13, 17, 26, 39, 97, 104):
+        S = 3
+        x = rng.standard_normal((n, S))
+        k = np.arange(n // 2)[:, None]
+        t = np.arange(n)[None, :]
+        W = np.exp(-2j * np.pi * k * t / n)                       # literal DFT, first n/2 bins
+        want = (np.abs(W.dot(x)) ** 2).mean(-1)
+        got = np.asarray(tp.calc_slope_temporalps(x.copy())[0], float)
+        n_cases += 1
+        if got.shape != want.shape or not np.allclose(got, want, rtol=1e-9, atol=1e-9):
+            bad.append(("temporalps:value:n_frames=%d" % n, dict(n=n, got=got.tolist()[:6], expected=want.tolist()[:6])))
+            break
+        # a sinusoid exactly on bin k0 peaks there and is labelled with its own frequency
+        if n >= 6:
+            k0 = max(1, n // 3 if n // 3 < n // 2 else 1)
+            sig = np.cos(2 * np.pi * k0 * np.arange(n) / n)[:, None] * np.ones((1, 2))
+            sp = np.asarray(tp.calc_slope_temporalps(sig)[0], float)
+            ax = np.asarray(tp.get_tps_time_axis(50.0, n), float)
+            if int(np.argmax(sp)) != k0 or abs(ax[k0] - k0 * 50.0 / n) > 1e-9:
+                bad.append(("temporalps:sinusoid-peak:n_frames=%d" % n, dict(n=n, peak=int(np.argmax(sp)), expected=k0)))
+                break
+    return bad, n_cases
+
+
 def check_axis(tp):
     bad = []
     n_cases = 0
@@ -121,6 +154,10 @@ def run(run):
                     run.sample(c, limit=4)
                 for key, detail in bad:
                     run.violation(key, detail, c)
+            badg, n_gen = check_general_n(tp, np.random.default_rng(run.seed))
+            for key, detail in badg:
+                run.violation(key, detail, dict(kind="general-n"))
+            run.aux["literal_dft_frame_counts"] = n_gen
             bad, n_axis = check_axis(tp)
             for key, detail in bad:
                 run.violation(key, detail, dict(kind="axis"))
@@ -141,6 +178,8 @@ def replay(run, case):
                 bad = check_sf(sc, case)
             elif case["kind"] == "tps":
                 bad = check_tps(tp, case)
+            elif case["kind"] == "general-n":
+                bad, _ = check_general_n(tp, np.random.default_rng(run.seed))
             else:
                 bad, _ = check_axis(tp)
     for key, detail in bad:
